@@ -182,11 +182,23 @@ fn weird_mbtiles(rng: &mut Rng, path: &std::path::Path) -> Result<()> {
 	Ok(())
 }
 
+/// a tile member name with a character in front of the extension whose lower / upper case form has another UTF-8 length
+/// (KELVIN SIGN, OHM SIGN, ANGSTROM SIGN, capital sharp s, dotted capital I, ...), other multi-byte characters, digits of
+/// other scripts, and extensions in mixed case
+fn tricky_name(rng: &mut Rng) -> String {
+	let specials = ["\u{212A}", "\u{2126}", "\u{212B}", "\u{1E9E}", "\u{0130}", "\u{00DF}", "\u{01C5}", "\u{00E9}", "\u{20AC}", "\u{1F600}", "\u{FF17}", "\u{0663}", "\u{FB03}", "\u{0149}", "\u{1F88}"];
+	let exts = [".png", ".PNG", ".gz", ".GZ", ".br", ".Br", ".png.gz", ".pbf.BR", ".pbf.gz", "", ".", ".jpg.Gz"];
+	let mut stem = String::new();
+	stem.push_str(*rng.pick(&["", "7", "12", "3."]));
+	for _ in 0..rng.range(1, 2) { stem.push_str(*rng.pick(&specials)); }
+	stem.push_str(*rng.pick(&["", "", "5", "x"]));
+	format!("{}/{}/{}{}", rng.below(4), rng.below(3), stem, *rng.pick(&exts))
+}
 fn weird_tar(rng: &mut Rng) -> Vec<u8> {
 	let mut b = tar::Builder::new(Vec::new());
 	let names: [&[u8]; 12] = [b"1/2/3.png", b"./1/2/3.png", b"a/b/c.png", b"1/2/x.png", b"1/2/3", b"1/2/3.png.gz", b"1/2/3.pbf", b"tiles.json", b"300/1/1.png", b"1/2/\xff\xfe.png", b"\xff/1/1.png", b"1//3.png"];
 	for _ in 0..rng.range(1, 4) {
-		let name = *rng.pick(&names);
+		let tricky = tricky_name(rng); let name: &[u8] = if rng.chance(1, 2) { tricky.as_bytes() } else { *rng.pick(&names) };
 		let mut h = tar::Header::new_gnu();
 		let d = if name == b"tiles.json" { b"{\"a\":".to_vec() } else { rng.bytes(6) };
 		h.set_size(d.len() as u64); h.set_mode(0o644);
@@ -319,6 +331,7 @@ fn execute(target: &str, case: &Case, rt: &tokio::runtime::Runtime, dir: &std::p
 				use std::os::unix::ffi::OsStrExt; let d = p.join("9").join("9"); std::fs::create_dir_all(&d).unwrap();
 				let _ = std::fs::write(d.join(std::ffi::OsStr::from_bytes(b"\xff\xfe.png")), b"x"); if b[1] % 8 == 0 { let _ = std::fs::create_dir_all(p.join(std::ffi::OsStr::from_bytes(b"\xff"))); } }
 			for (n, d) in files { let f = p.join(n); std::fs::create_dir_all(f.parent().unwrap()).unwrap(); std::fs::write(f, d).unwrap(); }
+			if b[1] % 3 != 0 { let mut r2 = Rng::new(b[0] as u64 * 256 + b[1] as u64); for _ in 0..r2.range(1, 3) { let f = p.join(tricky_name(&mut r2)); let _ = std::fs::create_dir_all(f.parent().unwrap()); let _ = std::fs::write(f, b"x"); } }
 			match rt.block_on(get_reader(p.to_str().unwrap())) { Ok(r) => { lookups(r.as_ref()); "ok" } Err(_) => "err" }
 		}
 	}
